@@ -1,6 +1,7 @@
 """Per-property configuration of the driver."""
 
 PROPS = {
+    "C03": dict(level="proof", num=3, rule="see harness c03.go"),
     "C20": dict(level="proof", num=20, rule="see harness c20.go",
                 trusted=["Kaitai runtime semantics (repeat: eos, u1/u4le, contents check, vlq_base128_le value of <= 8 groups) are modelled in RecordIO/Kaitai.v; the payload length expression, magic contents and compression enum are regenerated from recordio_v4.ksy (gen/FactsKsy.v); agreement of the generated Go reader with that model is checked by the correspondence"]),
     "C12": dict(level="proof", num=12, rule="see harness c12.go"),
